@@ -89,6 +89,7 @@ func checkC08(w *World, c *Check, tier string) {
 	c.Explanation = "Decides, for every pointer reinterpretation through unsafe.Pointer in the package (found on the SSA form, by type), that the destination struct is no larger than the source and is a field-by-field layout prefix of it (offset, type, jsonld term, name — Items/OrderedItems being the one renaming the statement allows) on every gc architecture, and that package unsafe is used for nothing else. This is the whole static obligation of the property: a narrowing prefix-compatible pointer conversion aliases the original (writes visible), reads shared fields identically and cannot reach outside the value. Not decided: behaviour of the reflect.ConvertibleTo fallback beyond its use of identical underlying types."
 	c.RuleText = "one obligation per cast site per rule (narrow, prefix) evaluated on all gc architectures; exhaustive over sites"
 	c.Trusted = []string{"go/types type checker and types.SizesFor(gc, arch)", "go/ssa builder (x/tools v0.29.0)", "apcheck c08.go"}
+	checkReflectFallback(w, c)
 	sites := findCastSites(w, c)
 	c.stat("cast_sites", len(sites))
 	c.stat("architectures", len(gcArches))
@@ -188,4 +189,63 @@ func prefixCompat(sz types.Sizes, src, dst *types.Struct) string {
 		}
 	}
 	return ""
+}
+
+// checkReflectFallback (C08.reflect): the reflection fallback of the To* helpers (types declared outside the package
+// with a vocabulary struct as underlying type) must convert the POINTER it was given — reflect.Value.Convert to *T and
+// a type assertion to *T — so that the view aliases the original. Dereferencing first and returning the address of
+// the converted copy reads the same but loses every write made through the view.
+func checkReflectFallback(w *World, c *Check) {
+	n := 0
+	for _, f := range w.Funcs {
+		o := f
+		if f.Origin() != nil {
+			o = f.Origin()
+		}
+		if o.Name() != "reflectItemToType" || f.Blocks == nil {
+			continue
+		}
+		n++
+		bad := ""
+		for _, rb := range returnBlocks(f) {
+			ret := rb.Instrs[len(rb.Instrs)-1].(*ssa.Return)
+			if len(ret.Results) != 2 || isNilConst(ret.Results[0]) {
+				continue
+			}
+			v := ret.Results[0]
+			if _, isAlloc := v.(*ssa.Alloc); isAlloc {
+				bad = fmt.Sprintf("returns the address of a local copy (at %s): the view no longer aliases the value it was made from, writes through it are lost", w.InstrPos(ret))
+				continue
+			}
+			ex, ok := v.(*ssa.Extract)
+			if !ok {
+				bad = fmt.Sprintf("returns %s (at %s), not the pointer obtained by converting the given pointer", shortVal(v), w.InstrPos(ret))
+				continue
+			}
+			ta, ok := ex.Tuple.(*ssa.TypeAssert)
+			if !ok {
+				bad = "the returned pointer is not the result of a type assertion on the converted value"
+				continue
+			}
+			if _, isPtr := types.Unalias(ta.AssertedType).Underlying().(*types.Pointer); !isPtr {
+				bad = "the converted value is asserted to a non-pointer type: a copy is made"
+			}
+		}
+		for _, call := range callsIn(f) {
+			if cal := call.Common().StaticCallee(); cal != nil && cal.Object() != nil && cal.Object().Pkg() != nil && cal.Object().Pkg().Path() == "reflect" {
+				if cal.Name() == "Indirect" || cal.Name() == "Elem" {
+					bad = fmt.Sprintf("dereferences the given value with reflect.%s before converting (at %s): the conversion then yields a copy of the struct, not a view of it", cal.Name(), w.InstrPos(call))
+				}
+			}
+		}
+		key := funcName(f)
+		if bad != "" {
+			c.bad("C08.reflect", key, w.FuncPos(f), "the reflection fallback "+bad)
+		} else {
+			c.ok("C08.reflect", key, w.FuncPos(f), "converts and returns the pointer it was given")
+		}
+	}
+	if n == 0 {
+		c.ok("C08.reflect", "none", "-", "no reflection fallback in the package")
+	}
 }
